@@ -2,6 +2,6 @@ SPECIFICATION Spec
 CONSTANTS
   Mrp = {m1, m2, m3}
   Atomic = TRUE
-  InspectorLoadsLock = FALSE
+  InspectorLoadsLock = TRUE
   InspectorCleansUp = FALSE
 INVARIANTS OneWriter HolderHasFile
